@@ -319,8 +319,8 @@ def evaluate(case):
                 kind = "real-at-real-N"
             for ix in zip(*np.nonzero(~(dev <= TOL))):
                 res.fail(
-                    f"{base}/component={list(map(int, ix))}/{kind}",
-                    f"order={case.get('order')} nf={case.get('nf')} N={n} L={L}: f(N)={a[ix]!r} f(conj N)={b[ix]!r} "
+                    f"{base}/component={list(map(int, ix))}/not-real-analytic",
+                    f"[{kind}] order={case.get('order')} nf={case.get('nf')} N={n} L={L}: f(N)={a[ix]!r} f(conj N)={b[ix]!r} "
                     f"rel.dev={dev[ix]:.3e}",
                 )
             comps.update(map(tuple, np.argwhere(np.abs(a) > 0).tolist()))
